@@ -375,7 +375,7 @@ def c02_toy_group_law(opts):
 
 # ------------------------------------------------------------------------ (a) toy curves, scalar multiplication
 @bounded("C02.toy_scalar_mul", props=["C02"],
-         bound="same toy curves; k*P and P*k vs repeated addition for all k in [-2n,3n]: every point P (incl. infinity) "
+         bound="same toy curves (quick: p<=23); k*P and P*k vs repeated addition for all k in [-2n,3n]: every point P (incl. infinity) "
                "for p<=23 (quick: p<=11), 1 seeded point + infinity per curve beyond; boundary k {0,+-1,+-n,n+-1,2n,3n,"
                "+-(2^256+1), 10^30} for every P (p>23 or quick: for every P on the order-carrying Curve, for the swept points on the "
                "other two configurations); order*P = infinity for every P; Curve objects with and without a stored "
@@ -386,7 +386,7 @@ def c02_toy_scalar_mul(opts):
     full_p = 11 if quick else 23
     t = Tally(rule="one case per (curve, configuration, point, scalar); nontrivial = P != infinity and k mod n not in {0,1}")
     v = V(t)
-    curves = toy_curves(_toy_pmax(opts))
+    curves = toy_curves(_toy_pmax(opts, quick=23))
     all_full = True
     for (p, a, b, pts) in curves:
         ref = RefGroup(p, a, b, pts)
